@@ -1514,3 +1514,98 @@ def rf149(run):
                       'access and a %s access of one address for the same memory expression and reuses the earlier value: a load yields the '
                       'value extended (or sized) for the other type at -O2 and -O3' % (kf.name, a, b, a[6:].lower(), b[6:].lower()), line=kf.line)
     return n
+
+
+# ---------------------------------------------------------------------------------------------
+# RF166: an extension disappears only behind a comparison
+# ---------------------------------------------------------------------------------------------
+
+def rf166(run):
+    import rf_proto
+    rule = 'RF166'
+    run.rule(rule, 'generator: an instruction is rewritten into a plain move (`insn->code = MIR_MOV`) at two places only — transform_addr (the '
+                   'address of a spilled variable) and copy_prop, where an extension of the 0/1 result of a 64-bit comparison is the '
+                   'identity (guard `cmp_res64_p (def_insn->code)`).  In particular no extension of an *incoming parameter* is dropped: the '
+                   'psABI leaves the bits above a narrow argument undefined, a native caller passes `int -5` as 0x00000000fffffffb, and '
+                   'the extension that simplify_func places at the function start is what makes the 64-bit register value right')
+    tu = run.tu('gen')
+    TABLE = {'transform_addr': None, 'copy_prop': 'cmp_res64_p'}
+    n = 0
+    for g in tu.func_list:
+        if g.body is None or not g.file.endswith(('mir-gen.c', 'mir-gen-x86_64.c')):
+            continue
+        for x in g.walk():
+            if not (x['k'] == 'BinaryOperator' and x['op'] == '=' and F.src(F.strip(x['c'][0])).replace(' ', '').endswith('->code')):
+                continue
+            r = F.strip(x['c'][1])
+            if not (r['k'] == 'DeclRefExpr' and r.get('n') in ('MIR_MOV', 'MIR_FMOV', 'MIR_DMOV', 'MIR_LDMOV')):
+                continue
+            n += 1
+            run.functions_analysed.add(('gen', g.name))
+            why = None
+            if g.name not in TABLE:
+                why = '%s is not one of the two functions that may turn an instruction into a move' % g.name
+            elif TABLE[g.name] is not None:
+                cfg = g.cfg
+                b = cfg.block_of(x)
+                conds = rf_proto.dominating_conditions(cfg, b) if b is not None else []
+                if not any(t and TABLE[g.name] + '(' in c.replace(' ', '') for c, t in conds):
+                    why = 'the rewriting is not under the guard `%s (…)`' % TABLE[g.name]
+            run.ob(rule, (g.name, x['l']), why is None, {'site': '%s:%d %s' % (g.relfile(), x['l'], g.name), 'assignment': F.src(x)[:50]})
+            if why:
+                run.violation(rule, g, 'instruction turned into a move', '`%s` at line %d: %s.  If the instruction is an extension of a narrow '
+                              'parameter, a native caller\'s undefined upper bits reach 64-bit arithmetic (f (i32:a) {add r,a,1000} called with -5 '
+                              'returns 4294968291)' % (F.src(x)[:40], x['l'], why), line=x['l'])
+    run.control(rule, 'rewrites into a move found', n >= 2)
+    return n
+
+
+# ---------------------------------------------------------------------------------------------
+# RF170: no 64-bit value travels through a narrower return type into a 64-bit variable
+# ---------------------------------------------------------------------------------------------
+
+def rf170(run, units=('gen', 'mir')):
+    rule = 'RF170'
+    run.rule(rule, 'generator and mir.c: MIR integer values are 64 bits wide.  A function whose return statement narrows a 64-bit integer '
+                   'expression implicitly (return type int or smaller) and whose result is converted back to a 64-bit integer at a call site '
+                   'loses the upper half on the way: `static int sum (…) { return (int64_t) ((uint64_t) c1 + (uint64_t) c2); }` with '
+                   '`val = sum (…)` for an int64_t val.  (Functions that narrow but are only used in narrow contexts — counts, indexes, '
+                   'flags — are listed in the evidence and accepted.)')
+    total = 0
+    for u in units:
+        tu = run.tu(u)
+        narrowing = {}
+        for g in tu.func_list:
+            if g.body is None or not g.file.startswith('/repo') or (u != 'mir' and g.file.endswith('/mir.c')):
+                continue
+            for x in g.walk():
+                if x['k'] == 'ReturnStmt' and F.kids(x):
+                    e = F.kids(x)[0]
+                    if e['k'] == 'ImplicitCastExpr':
+                        t, o = tu.type(e), tu.type(e['c'][0])
+                        if t is not None and o is not None and getattr(t, 'kind', None) == 'int' and getattr(o, 'kind', None) == 'int' \
+                                and o.w == 64 and t.w is not None and t.w < 64:
+                            narrowing.setdefault(g.name, []).append((g, x['l'], F.src(e['c'][0])[:60], t.s))
+        total += len(narrowing)
+        widened = {}
+        for g in tu.func_list:
+            if g.body is None:
+                continue
+            for x in g.walk():
+                if x['k'] in F.CASTS and x.get('c') and F.strip(x['c'][0])['k'] == 'CallExpr' and F.strip(x['c'][0]).get('callee') in narrowing:
+                    t = tu.type(x)
+                    if t is not None and getattr(t, 'kind', None) == 'int' and t.w == 64:
+                        widened.setdefault(F.strip(x['c'][0])['callee'], []).append((g, x['l'], t.s))
+        for fn, sites in sorted(narrowing.items()):
+            g0, l0, src0, ts = sites[0]
+            run.functions_analysed.add((u, fn))
+            bad = widened.get(fn, [])
+            run.ob(rule, (u, fn), not bad, {'function': fn, 'return narrows': '%s -> %s (line %d)' % (src0, ts, l0),
+                                           'results converted back to 64 bits': ['%s:%d' % (c.name, l) for c, l, _ in bad]})
+            if bad:
+                c, l, t64 = bad[0]
+                run.violation(rule, g0, '64-bit value through a %s return' % ts, '%s returns `%s` (a 64-bit value) as %s (line %d), and %s converts the '
+                              'result back to %s (line %d): the upper 32 bits are lost and the low half is sign-extended — e.g. two constants '
+                              'whose sum does not fit in 32 bits combine to a wrong constant' % (fn, src0, ts, l0, c.name, t64, l), line=l0)
+    run.control(rule, 'narrowing returns seen by the extractor', total >= 3)
+    return total
